@@ -315,6 +315,8 @@ struct P<'a> {
     c: Vec<char>,
     i: usize,
     _s: &'a str,
+    /// keys of every object type declared in the schema declaration's __OperationOutput namespace
+    decl: &'a BTreeMap<String, BTreeSet<String>>,
 }
 impl<'a> P<'a> {
     fn ws(&mut self) {
@@ -409,11 +411,19 @@ impl<'a> P<'a> {
                 if !self.eat("<") {
                     return Err("expected `<`".into());
                 }
-                let _orig = self.ident();
+                // __SelectionSet<Orig, Obj, Others> = Pick<{[K in keyof Orig]: type of K in Obj}, Extract<keyof Orig, keyof Obj>> & Others
+                // (the definition is compared with the one this reader interprets, see prelude_is_known): a key of Obj
+                // that the declaration of Orig lacks is dropped by Extract - the type then says nothing about it
+                let orig = self.ident();
+                let Some(orig_keys) = orig.strip_prefix("Schema.__OperationOutput.").and_then(|n| self.decl.get(n)) else {
+                    return Err(format!("__SelectionSet over {orig:?}, which is not an object type of the schema declaration's __OperationOutput namespace"));
+                };
                 if !self.eat(",") {
                     return Err("expected `,` after the original type".into());
                 }
                 let (mut req, mut never) = self.obj()?;
+                req.retain(|(k, _)| orig_keys.contains(k));
+                never.retain(|k| orig_keys.contains(k));
                 if !self.eat(",") {
                     return Err("expected `,` after the selected fields".into());
                 }
@@ -433,6 +443,48 @@ impl<'a> P<'a> {
             other => Err(format!("unexpected token {other:?} at {}", self.i)),
         }
     }
+}
+/// the utility type as this reader interprets it (whitespace-insensitive comparison of its definition)
+fn prelude_is_known(schema_ts: &str) -> bool {
+    let squash = |s: &str| s.chars().filter(|c| !c.is_whitespace()).collect::<String>();
+    let known = "type __Beautify<Obj> = { [K in keyof Obj]: Obj[K] } & {}; export type __SelectionSet<Orig, Obj, Others> = __Beautify<Pick<{ [K in keyof Orig]: Obj extends { [P in K]?: infer V } ? V : unknown }, Extract<keyof Orig, keyof Obj>> & Others>;";
+    squash(schema_ts).contains(&squash(known))
+}
+/// object types declared in `export declare namespace __OperationOutput { .. }`: name -> declared keys
+fn declared_objects(schema_ts: &str) -> Result<BTreeMap<String, BTreeSet<String>>, String> {
+    let start = schema_ts.find("export declare namespace __OperationOutput {").ok_or("no __OperationOutput namespace")?;
+    let body = &schema_ts[start..];
+    let body = &body[..body.find("\n}\n").ok_or("unterminated namespace")?];
+    let mut out = BTreeMap::new();
+    let mut cur: Option<(String, BTreeSet<String>)> = None;
+    for line in body.lines() {
+        let l = line.trim();
+        if let Some(rest) = l.strip_prefix("export type ") {
+            if let Some((name, rhs)) = rest.split_once(" = ") {
+                if rhs.trim() == "{" {
+                    cur = Some((name.to_string(), BTreeSet::new()));
+                }
+            }
+        } else if l == "};" {
+            if let Some((n, k)) = cur.take() {
+                out.insert(n, k);
+            }
+        } else if let Some((n, keys)) = cur.as_mut() {
+            if l.starts_with("/**") || l.starts_with('*') || l.is_empty() {
+                continue;
+            }
+            let (key, ty) = l.split_once(':').ok_or(format!("{n}: not a property: {l}"))?;
+            let key = key.trim();
+            if key.ends_with('?') {
+                return Err(format!("{n}: optional property {key}"));
+            }
+            if key == "__typename" && ty.trim().trim_end_matches(';') != format!("\"{n}\"") {
+                return Err(format!("{n}: __typename is declared as {ty}"));
+            }
+            keys.insert(key.to_string());
+        }
+    }
+    Ok(out)
 }
 fn member(v: &Val, t: &Ts) -> bool {
     match (t, v) {
@@ -646,7 +698,8 @@ fn main() {
         }
         let out = cli::run(&clip, dir, &[("graphql.config.yaml".into(), config.clone()), ("schema/s.graphql".into(), SCHEMA.to_string()), ("ops/q.graphql".into(), show_op(&ops[i].1)), ("out/.keep".into(), String::new())], "generate");
         let ts = std::fs::read_to_string(dir.join("ops/q.d.graphql.ts")).ok();
-        Some((out, ts))
+        let schema_ts = std::fs::read_to_string(dir.join("out/schema.d.ts")).ok();
+        Some((out, ts, schema_ts))
     });
     let _ = std::fs::remove_dir_all(&tmp);
     let mut failures = vec![];
@@ -654,7 +707,7 @@ fn main() {
     let mut evaluations = 0usize;
     let (mut n_resp, mut n_mut, mut n_frag) = (0usize, 0usize, 0usize);
     for (i, ((label, op), r)) in ops.iter().zip(results.iter()).enumerate() {
-        let Some((out, ts)) = r else { continue };
+        let Some((out, ts, schema_ts)) = r else { continue };
         evaluations += 1;
         let input = format!("[{label}]\n{}", show_op(op));
         let mut fail = |sig: String, why: String, got: String| failures.push((i, sig, input.clone(), why, got));
@@ -667,6 +720,36 @@ fn main() {
             continue;
         }
         let ts = ts.clone().unwrap_or_default();
+        let schema_ts = schema_ts.clone().unwrap_or_default();
+        if !prelude_is_known(&schema_ts) {
+            fail("harness: the __SelectionSet utility type of the schema declaration is not the definition this reader interprets".into(), String::new(), schema_ts.chars().take(700).collect());
+            continue;
+        }
+        let decl = match declared_objects(&schema_ts) {
+            Ok(d) => d,
+            Err(e) if e.contains("__typename is declared as") => {
+                fail("C02: an object type of the schema declaration does not declare __typename as its own name".into(), e, String::new());
+                continue;
+            }
+            Err(e) => {
+                fail("harness: the __OperationOutput namespace of the schema declaration is outside the subset this reader understands".into(), e, String::new());
+                continue;
+            }
+        };
+        // C02, last clause: every object type declares __typename as its own name and every field of the schema type,
+        // so no selected key is dropped by the utility type
+        let mut decl_bad = false;
+        for (ty, fields) in [("Query", vec!["n", "m", "user", "users", "maybe", "thing", "things", "node", "deep"]), ("User", vec!["id", "name", "friend", "posts"]), ("Post", vec!["id", "title", "author"])] {
+            let want: BTreeSet<String> = fields.iter().map(|f| f.to_string()).chain(["__typename".to_string()]).collect();
+            if decl.get(ty) != Some(&want) {
+                fail("C02: an object type of the schema declaration does not declare exactly __typename and the fields of the schema type".into(), format!("{ty}: declared keys {:?}", decl.get(ty)), String::new());
+                decl_bad = true;
+                break;
+            }
+        }
+        if decl_bad {
+            continue;
+        }
         // the operation's Result type and the exported type of every fragment of the document ("objects that match the fragment")
         let mut targets: Vec<(String, Vec<&'static str>, &[Sel])> = vec![("type QResult = ".to_string(), vec!["Query"], &op.sel)];
         for (name, cond, sels) in &op.frags {
@@ -681,7 +764,7 @@ fn main() {
             let body = &ts[st + marker.len()..];
             let end = body.find(";\n\n").unwrap_or(body.len());
             let text = &body[..end];
-            let mut p = P { c: text.chars().collect(), i: 0, _s: text };
+            let mut p = P { c: text.chars().collect(), i: 0, _s: text, decl: &decl };
             let ty = match p.union() {
                 Ok(t) => t,
                 Err(e) => {
